@@ -649,7 +649,7 @@ namespace Givaro {
         if (tr <0) {
                 // -a = b [p]  <==>  a = p-b [p]
             tr = -tr;
-            if (tr > Signed_Trait<UTT>::max() )
+            if (tr >= static_cast<double>(Signed_Trait<UTT>::max()) )
                 tr = fmod(tr,(double)_q);
                 //tr -= (double)floor(tr * _inversecharacteristic)*_dcharacteristic;
             else{
@@ -662,7 +662,7 @@ namespace Givaro {
             else
                 return r = zero;
         } else {
-            if (tr > Signed_Trait<UTT>::max() )
+            if (tr >= static_cast<double>(Signed_Trait<UTT>::max()) )
                 tr = fmod(tr, (double)_q);
                 //tr -= (double)floor(tr * _inversecharacteristic)*_dcharacteristic;
             else{
